@@ -6,6 +6,7 @@ import (
 	"crypto/elliptic"
 	"encoding/json"
 	"fmt"
+	"io"
 	"math/big"
 	"reflect"
 	"strings"
@@ -223,6 +224,10 @@ type C12Sc struct {
 	Subst       *RespSubst `json:"subst,omitempty"`
 	Discovery   *RespSubst `json:"discovery,omitempty"` // nil: version enforced, no discovery exchange
 	Chunk       int        `json:"chunk,omitempty"`
+	// Mw: the library's own client middlewares are installed (bitmask): 1 DebugMiddleware with the default marshaller,
+	// 2 CorrelationValueMiddleware, 4 TimeoutMiddleware, 8 DebugMiddleware with a JSON marshaller. They see every
+	// response before the checks of the call do, and the statement holds with or without them
+	Mw int `json:"mw,omitempty"`
 }
 
 var statusVals = []kmip.ResultStatus{kmip.ResultStatusSuccess, kmip.ResultStatusOperationFailed, kmip.ResultStatusOperationPending, kmip.ResultStatusOperationUndone, kmip.ResultStatus(9)}
@@ -330,6 +335,9 @@ func genC12(g *simrt.Tape, tier string) any {
 		sc.Discovery = genRespSubst(g)
 	}
 	sc.Chunk = []int{simnet.ChunkMax, simnet.ChunkRandom}[g.Draw(2)]
+	if g.Draw(3) == 0 {
+		sc.Mw = 1 + g.Draw(15)
+	}
 	return sc
 }
 
@@ -355,7 +363,7 @@ func c12Floor(tier string) []*C12Sc {
 		{Items: []ItemSubst{{Status: 3, Reason: 5, Payload: "absent"}}},
 		{Items: []ItemSubst{{Status: 4, Reason: 2, Message: true, Payload: "absent"}}},
 		{Items: []ItemSubst{{Status: 1, Reason: 3, Message: true}}}, // failed but with a payload
-		{HeaderDelta: 1}, {HeaderDelta: -1}, {ItemsDelta: 1}, {ItemsDelta: -9}, {ItemsDelta: 1, HeaderDelta: 1},
+		{HeaderDelta: 1}, {HeaderDelta: -1}, {ItemsDelta: 1}, {ItemsDelta: -9}, {ItemsDelta: 1, HeaderDelta: 1}, {ItemsDelta: -9, HeaderDelta: 1}, {ItemsDelta: -9, HeaderDelta: 2},
 		{Decor: 1}, {Decor: 2}, {Decor: 4}, {Decor: 8}, {Decor: 15},
 		{Decor: 3, Items: []ItemSubst{{Status: 1, Reason: 4, Message: true, Payload: "absent"}}},
 		{Decor: 2, Items: []ItemSubst{{Status: 2, Payload: "absent"}}},
@@ -366,6 +374,22 @@ func c12Floor(tier string) []*C12Sc {
 		for _, sb := range singles {
 			out = append(out, &C12Sc{Op: op, Subst: sb})
 		}
+	}
+	// the same single substitutions seen through the library's own middlewares first
+	for _, mw := range []int{1, 2, 4, 8, 15} {
+		for _, op := range []int{0, 10, 16} {
+			for _, sb := range singles {
+				out = append(out, &C12Sc{Op: op, Subst: sb, Mw: mw})
+			}
+		}
+		for _, sb := range singles {
+			d := sb
+			if d == nil {
+				d = &RespSubst{}
+			}
+			out = append(out, &C12Sc{Op: 0, Discovery: d, Mw: mw})
+		}
+		out = append(out, &C12Sc{Op: -1, Batch: []int{0, 10}, Subst: &RespSubst{ItemsDelta: -9}, Mw: mw}, &C12Sc{Op: -1, Batch: []int{0, 10}, Subst: &RespSubst{ItemsDelta: -9, HeaderDelta: 1}, Mw: mw})
 	}
 	// batches under every continuation option, with self-consistent truncated / extended / failed replies
 	for opt := 0; opt < 4; opt++ {
@@ -632,6 +656,22 @@ func execC12(x *X, scAny any) {
 		o := []kmipclient.Option{kmipclient.WithDialerUnsafe(w.dialer)}
 		if sc.Discovery == nil {
 			o = append(o, kmipclient.EnforceVersion(kmip.V1_4))
+		}
+		var mws []kmipclient.Middleware
+		if sc.Mw&1 != 0 {
+			mws = append(mws, kmipclient.DebugMiddleware(io.Discard, nil))
+		}
+		if sc.Mw&2 != 0 {
+			mws = append(mws, kmipclient.CorrelationValueMiddleware(func() string { return "c12" }))
+		}
+		if sc.Mw&4 != 0 {
+			mws = append(mws, kmipclient.TimeoutMiddleware(time.Minute))
+		}
+		if sc.Mw&8 != 0 {
+			mws = append(mws, kmipclient.DebugMiddleware(io.Discard, ttlv.MarshalJSON))
+		}
+		if len(mws) > 0 {
+			o = append(o, kmipclient.WithMiddlewares(mws...))
 		}
 		c, err := kmipclient.DialContext(context.Background(), "sim", o...)
 		dialled = true
